@@ -1866,8 +1866,27 @@ struct RunDir
     }
 };
 
-void run(Src &src, Case &c)
+// Counts the choices read, so that a replay file can be extended by one more choice at the right place.
+struct CountingSrc: Src
 {
+    Src &in;
+    size_t count = 0;
+    explicit CountingSrc(Src &s)
+        : in(s)
+    {
+    }
+    bool exhausted() const override { return in.exhausted(); }
+protected:
+    uint64_t raw(uint64_t n) override
+    {
+        ++count;
+        return in.below(n);
+    }
+};
+
+void run(Src &tapeSrc, Case &c)
+{
+    CountingSrc src(tapeSrc);
     const bool ex = gMode == "ex";
     Scenario sc;
     Graph g;
@@ -1990,9 +2009,15 @@ void run(Src &src, Case &c)
     for (int &l : sc.limit) {
         l = 20;
     }
-    // The calls left out below are made when a saved case is replayed (so that every known finding has a replay) and when
-    // VERIF_C07_RUN_EXCLUDED / VERIF_C07_NO_EXCLUSIONS is set (development aids; the latter also changes what is generated).
-    static const bool noExclusions = getenv("VERIF_C07_NO_EXCLUSIONS") != nullptr || getenv("VERIF_C07_RUN_EXCLUDED") != nullptr || gMode == "replay";
+    // The calls left out below are made when VERIF_C07_RUN_EXCLUDED / VERIF_C07_NO_EXCLUSIONS is set (development aids; the
+    // latter also changes what is generated) or when the tape asks for it:
+    static const bool envNoExclusions = getenv("VERIF_C07_NO_EXCLUSIONS") != nullptr || getenv("VERIF_C07_RUN_EXCLUDED") != nullptr;
+    // The last choice of a tape: a value no random tape hits in practice (1 in 10^6) makes the calls that are left out below
+    // happen. Replay files of the known findings that need those calls end in it (bin/c07_replay_with_excluded_calls.py);
+    // the exhaustive driver never asks (it would enumerate the radix), and reads past the end of a tape give 0.
+    const size_t choicesBeforeLast = src.count;
+    const bool runExcluded = !ex && src.below(1000003) == 777777;
+    const bool noExclusions = envNoExclusions || runExcluded;
     // Known: flattenModel() -> checkUnitsForCycles() recurses without bound on a cycle of ordinary units. The call is left
     // out (and counted) except in a sample, because every such scenario costs a crashed child.
     bool flattenOnUnitCycle = noExclusions || !gDef.unitCycleOverflow || (bounded ? (fault.len == 1 && fault.file == 1 && sc.fileRoute && !sc.seqB) : allowKnown);
@@ -2212,6 +2237,7 @@ void run(Src &src, Case &c)
         c.count(k.first, k.second);
     }
     c.text += "observed: " + last.rets + "\n";
+    c.text += "choices read before the last one: " + std::to_string(choicesBeforeLast) + (runExcluded ? " (this tape asks for the calls that are normally left out)" : "") + "\n";
     for (const auto &f : fails) {
         c.alsoFailed.push_back(f);
         c.text += "FAILED " + f.first + "\n";
